@@ -368,6 +368,7 @@ EXC_PARENTS = {
     "TemplateSyntaxError": "TemplateError",
     "TemplateError": "Exception",
     "InvalidFilterError": "RuntimeError",
+    "TemplateNotFound": "TemplateError",
 }
 
 
@@ -1239,6 +1240,8 @@ class Interp:
             return VInt(int_lit(v))
         if isinstance(v, str):
             return VStr(str_lit(v))
+        if v is Ellipsis:
+            return VConst("...")
         raise OutOfSubset(f"constant {v!r}")
 
     def e_Name(self, n: ast.Name) -> V:
@@ -1497,6 +1500,8 @@ class Interp:
             if n.slice.step is not None:
                 raise OutOfSubset("slice step")
             return self.slice(o, lo, hi)
+        if isinstance(o, VConst) and not (isinstance(o.obj, tuple) and o.obj and o.obj[0] in ("regex",)):
+            return VConst(("type-expression", ast.unparse(n)))  # typing.X[...] : a type, only ever handed to cast()
         k = self.eval(n.slice)
         if isinstance(o, VOpt):
             if self.ctx.branch(VBool(o.isnone), "subscript-of-None"):
